@@ -524,58 +524,71 @@ func runConc(id int, seed uint64, idx int, outDir string, cf *gallina.CaseFile, 
 	}()
 
 	appendOK := true
-	for _, a := range prog {
-		switch a.kind {
-		case 'S':
-			var rs []record.RefSeries
-			for _, i := range a.series {
-				rs = append(rs, record.RefSeries{Ref: chunks.HeadSeriesRef(specs[i].ref), Labels: specs[i].lset})
-				tab[i] = known{seg: a.seg, kept: keptBy(rules, ext, specs[i].raw)}
-			}
-			qm.StoreSeries(rs, a.seg)
-		case 'R':
-			qm.SeriesReset(a.seg)
-			for i, k := range tab {
-				if k.seg < a.seg {
-					delete(tab, i)
+	feedRet := make(chan struct{})
+	go func() {
+		defer close(feedRet)
+		for _, a := range prog {
+			switch a.kind {
+			case 'S':
+				var rs []record.RefSeries
+				for _, i := range a.series {
+					rs = append(rs, record.RefSeries{Ref: chunks.HeadSeriesRef(specs[i].ref), Labels: specs[i].lset})
+					tab[i] = known{seg: a.seg, kept: keptBy(rules, ext, specs[i].raw)}
 				}
-			}
-		case 'A':
-			var ss []record.RefSample
-			for _, sp := range a.samples {
-				sid := int64(len(fed))
-				ref := neverRef
-				if sp.series >= 0 {
-					ref = specs[sp.series].ref
-				}
-				t := nowMs + sid
-				class := 3
-				if k, ok := tab[sp.series]; ok && sp.series >= 0 {
-					if k.kept {
-						class = 0
-					} else {
-						class = 2
+				qm.StoreSeries(rs, a.seg)
+			case 'R':
+				qm.SeriesReset(a.seg)
+				for i, k := range tab {
+					if k.seg < a.seg {
+						delete(tab, i)
 					}
 				}
-				if sp.old {
-					t = nowMs - 3600_000
-					class = 1
+			case 'A':
+				var ss []record.RefSample
+				for _, sp := range a.samples {
+					sid := int64(len(fed))
+					ref := neverRef
+					if sp.series >= 0 {
+						ref = specs[sp.series].ref
+					}
+					t := nowMs + sid
+					class := 3
+					if k, ok := tab[sp.series]; ok && sp.series >= 0 {
+						if k.kept {
+							class = 0
+						} else {
+							class = 2
+						}
+					}
+					if sp.old {
+						t = nowMs - 3600_000
+						class = 1
+					}
+					fed = append(fed, gallina.Pair(gallina.ZU(ref), gallina.Z(int64(class))))
+					fedClass[class]++
+					ss = append(ss, record.RefSample{Ref: chunks.HeadSeriesRef(ref), T: t, V: float64(sid)})
 				}
-				fed = append(fed, gallina.Pair(gallina.ZU(ref), gallina.Z(int64(class))))
-				fedClass[class]++
-				ss = append(ss, record.RefSample{Ref: chunks.HeadSeriesRef(ref), T: t, V: float64(sid)})
-			}
-			if !qm.Append(ss) {
-				appendOK = false
-			}
-			progress.Add(int64(len(ss)))
-			if r.Chance(1, 4) {
-				time.Sleep(time.Duration(r.Intn(400)) * time.Microsecond)
+				if !qm.Append(ss) {
+					appendOK = false
+				}
+				progress.Add(int64(len(ss)))
+				if r.Chance(1, 4) {
+					time.Sleep(time.Duration(r.Intn(400)) * time.Microsecond)
+				}
 			}
 		}
+	}()
+	hung := false
+	select {
+	case <-feedRet:
+	case <-time.After(240 * time.Second):
+		hung = true
+		meta.GoViol = append(meta.GoViol, gallina.GoViolation{ID: strconv.Itoa(id), Shape: "feed-hang", What: "StoreSeries/Append feed did not finish within 240 s"})
 	}
 	feederDone.Store(true)
-	wg.Wait()
+	if !hung {
+		wg.Wait()
+	}
 
 	stopped := make(chan struct{})
 	go func() { qm.Stop(); close(stopped) }()
@@ -586,7 +599,13 @@ func runConc(id int, seed uint64, idx int, outDir string, cf *gallina.CaseFile, 
 	case <-time.After(300 * time.Second):
 		meta.GoViol = append(meta.GoViol, gallina.GoViolation{ID: strconv.Itoa(id), Shape: "stop-hang", What: "QueueManager.Stop did not return within 300 s"})
 	}
-	if !appendOK {
+	if hung {
+		select { // Stop makes a spinning Append return
+		case <-feedRet:
+		case <-time.After(60 * time.Second):
+		}
+	}
+	if !appendOK && !hung {
 		meta.GoViol = append(meta.GoViol, gallina.GoViolation{ID: strconv.Itoa(id), Shape: "append-false", What: "Append returned false before Stop"})
 	}
 
@@ -643,8 +662,7 @@ func runConc(id int, seed uint64, idx int, outDir string, cf *gallina.CaseFile, 
 
 	shape := "conc"
 	if dupWhole && byOutcome[1] == 0 && byOutcome[2] == 0 {
-		// a whole request repeated although no send failed: the FlushAndShutdown / timer race
-		shape = "flush-timer-duplicate"
+		shape = "conc-whole-request-repeated-without-failure"
 	}
 	meta.Evaluations++
 	if len(reqs) >= 2 && (len(reshards) > 0 || byOutcome[1]+byOutcome[2] > 0) {
